@@ -200,6 +200,10 @@ func (secrets *Secrets) Delete(key string) (rls *rspb.Release, err error) {
 	}
 	// delete the release
 	err = secrets.impl.Delete(context.Background(), key, metav1.DeleteOptions{})
+	if apierrors.IsNotFound(err) {
+		// the release was deleted by someone else after the existence check
+		return nil, ErrReleaseNotFound
+	}
 	return rls, err
 }
 
